@@ -21,6 +21,7 @@ type c12Conv struct {
 	Rel, Fn   string // function containing the converter loop
 	KeyIsKey  bool   // map -> map: the stored key must be the range key
 	Via       string // if set: the stored value must be a direct call of this function (FullName) with the range value as its last argument
+	RawGetter string // if set (FullName): (type, value, err) := getter(…) in the loop; the value must reach the entry unconverted
 	Exception map[string]string
 }
 
@@ -439,8 +440,95 @@ func runC12Conv(c *Ctx, b *c12BindCfg, cv c12Conv) {
 		}
 		return true
 	})
+	if cv.RawGetter != "" {
+		c12BoundAsStored(c, cv, pk, fd, loop, resMap)
+	}
 	// the map that was filled is what the function hands on
 	c12ResultUsed(c, b, cv, pk, fd, resMap)
+}
+
+// c12BoundAsStored: the (type, value) pair read by the getter is what the entry is built from: the value
+// variable is never assigned again (no conversion on the way), the type variable only from a non-call
+// expression (the NULL type default), and both are arguments of the call that builds the entry.
+func c12BoundAsStored(c *Ctx, cv c12Conv, pk *packages.Package, fd *ast.FuncDecl, loop *ast.RangeStmt, resMap types.Object) {
+	info := pk.TypesInfo
+	key := cv.Fn + "/variable bound as stored"
+	var getAs *ast.AssignStmt
+	inspectNoLit(loop.Body, func(n ast.Node) bool {
+		if as, ok := n.(*ast.AssignStmt); ok && len(as.Rhs) == 1 && len(as.Lhs) == 3 {
+			if call, ok := ast.Unparen(as.Rhs[0]).(*ast.CallExpr); ok {
+				if fn := Callee(info, call); fn != nil && FullName(fn) == cv.RawGetter {
+					getAs = as
+				}
+			}
+		}
+		return true
+	})
+	if getAs == nil {
+		c.Undecided("C12-B1", key, loop.Pos(), "no `type, value, err := "+cv.RawGetter+"(…)` in the converter loop")
+		return
+	}
+	tObj, vObj := c12ObjOf(info, getAs.Lhs[0]), c12ObjOf(info, getAs.Lhs[1])
+	if tObj == nil || vObj == nil {
+		c.Bad("C12-B1", key, getAs.Pos(), cv.Fn+": the type or the value returned by the variable lookup is discarded")
+		return
+	}
+	var problems []string
+	inspectNoLit(loop.Body, func(n ast.Node) bool {
+		as, ok := n.(*ast.AssignStmt)
+		if !ok || as == getAs {
+			return true
+		}
+		for i, l := range as.Lhs {
+			o := c12ObjOf(info, l)
+			if o == vObj {
+				problems = append(problems, fmt.Sprintf("the value is replaced before it is bound (%s: %s)", c.P.Rel(as.Pos()), shortNode(c.P.Fset, as)))
+			}
+			if o == tObj {
+				isCall := true
+				if len(as.Rhs) == len(as.Lhs) {
+					_, isCall = ast.Unparen(as.Rhs[i]).(*ast.CallExpr)
+				}
+				if isCall {
+					problems = append(problems, fmt.Sprintf("the type is recomputed before it is bound (%s)", c.P.Rel(as.Pos())))
+				}
+			}
+		}
+		return true
+	})
+	used := false
+	inspectNoLit(loop.Body, func(n ast.Node) bool {
+		s, ok := n.(ast.Stmt)
+		if !ok {
+			return true
+		}
+		m, _, vx, ok := c12MapStore(info, s)
+		if !ok || m != resMap {
+			return true
+		}
+		if call, ok := ast.Unparen(vx).(*ast.CallExpr); ok {
+			hasV, hasT := false, false
+			for _, a := range call.Args {
+				if o := c12ObjOf(info, a); o == vObj {
+					hasV = true
+				} else if o == tObj {
+					hasT = true
+				}
+			}
+			if hasV && hasT {
+				used = true
+			}
+		}
+		return true
+	})
+	if !used {
+		problems = append(problems, "no entry is built directly from the looked-up value and type")
+	}
+	if len(problems) > 0 {
+		c.Bad("C12-B1", key, getAs.Pos(), cv.Fn+": a variable named in EXECUTE … USING does not reach the statement as it is stored (the inline @v does): "+strings.Join(problems, "; "))
+	} else {
+		c.Ok("C12-B1", key, getAs.Pos(), "value and type of the variable reach the entry unchanged")
+	}
 }
 
 func c12ShortExpr(e ast.Expr) string {
